@@ -1458,30 +1458,34 @@ def _make_xvm():
                     raise VMRaise_native(e)
             return MiniVM.call(self, fn, args, kwargs)
 
-        def _run_star(self, func, args, kwargs):
-            """functions with *args / **kwargs parameters"""
+        def _run_star(self, func, args, kwargs, base=None):
+            """functions with *args / **kwargs parameters, and nested functions (``base`` = the variables of the enclosing activation they can read)"""
             from sa.props._lib_h_d import VMRaise_native, _Ret
             node = func.node
             a = node.args
             if a.kwonlyargs or a.posonlyargs:
                 raise VMError(f"signature of {node.name} outside the subset")
             names = [x.arg for x in a.args]
-            env = dict(zip(names, args))
+            env = dict(base or {})
+            for n_ in names:
+                env.pop(n_, None)
+            given = dict(zip(names, args))
+            env.update(given)
             extra = list(args[len(names):])
             if extra and not a.vararg:
                 raise VMRaise_native(TypeError(f"{node.name}() takes {len(names)} positional arguments"))
             kw = {}
             for k, v in kwargs.items():
-                if k in names and k not in env:
-                    env[k] = v
+                if k in names and k not in given:
+                    env[k] = given[k] = v
                 elif a.kwarg:
                     kw[k] = v
                 else:
                     raise VMRaise_native(TypeError(f"{node.name}() unexpected argument {k}"))
             for n_, d in zip(names[len(names) - len(a.defaults):], a.defaults):
-                if n_ not in env:
-                    env[n_] = self.eval(d, {}, func.mod, None)
-            missing = [n_ for n_ in names if n_ not in env]
+                if n_ not in given:
+                    env[n_] = given[n_] = self.eval(d, {}, func.mod, None)
+            missing = [n_ for n_ in names if n_ not in given]
             if missing:
                 raise VMRaise_native(TypeError(f"{node.name}() missing {missing}"))
             if a.vararg:
@@ -1496,6 +1500,8 @@ def _make_xvm():
 
         def _run(self, func, args, kwargs):
             node = func.node
+            if not isinstance(node, ast.Lambda) and getattr(func, "closure", None) is not None:
+                return self._run_star(func, args, kwargs, base=func.closure)      # a nested function reads the variables of the activation that defined it
             if not isinstance(node, ast.Lambda) and (node.args.vararg or node.args.kwarg):
                 return self._run_star(func, args, kwargs)
             isgen = self._isgen.get(id(node))
@@ -1538,6 +1544,14 @@ def _make_xvm():
                     if all(self.truth(self.eval(c, local, mod, owner)) for c in gen.ifs):
                         out[self.eval(e.key, local, mod, owner)] = self.eval(e.value, local, mod, owner)
                 return out
+            if isinstance(e, ast.Attribute) and e.attr == "__dict__":
+                from sa.props._lib_h_d import VMObj as _VMObj2
+                v = self.eval(e.value, env, mod, owner)
+                if isinstance(v, _VMObj2):
+                    return dict(v.attrs)
+                if isinstance(v, VMStub):
+                    return dict(vars(v))
+                raise VMError("__dict__ of something that is not an instance")
             if isinstance(e, ast.GeneratorExp):
                 v = MiniVM._eval(self, e, env, mod, owner)      # evaluated eagerly by the base interpreter; handed out as a one-shot iterator as at run time
                 return iter(v) if isinstance(v, (list, tuple)) else v
@@ -1588,6 +1602,12 @@ def _make_xvm():
                     finally:
                         self.block(post, cenv, fn.mod, fn.owner)
                     return None
+            if isinstance(st, ast.FunctionDef) and isinstance(env, dict) and not st.decorator_list and "self" in env or \
+                    (isinstance(st, ast.FunctionDef) and isinstance(env, dict) and not st.decorator_list and env is not getattr(mod, "_g", None)):
+                vf = VMFunc(mod, st, owner)
+                vf.closure = env
+                env[st.name] = vf
+                return None
             return MiniVM.stmt(self, st, env, mod, owner)
 
     return XVM
